@@ -309,3 +309,38 @@ def try_from_u64_model(ctx, config="all"):
                           "is_negative edge (found=%s)" % found)
     rep.analysed = {"build_config": config}
     return rep
+
+
+def byte_panics(ctx, config="all"):
+    rep = Report("R-GUARD/byte", "Uint::byte panics exactly for index >= BYTES (documented): in every configuration its only "
+                 "panic site is a bounds check whose failure condition, expressed over the parameters, is index >= BYTES; "
+                 "checked_byte discharges it with its `index < BYTES` guard (R-TOTAL)")
+    from . import total_rule
+    prog = ctx.prog(config)
+    T = total_rule.totality(ctx, config)
+    k = "crate::bits::<impl %s>::byte" % U
+    if k not in prog.bodies:
+        rep.violation("byte|missing", "src/bits.rs", "Uint::byte not found")
+        return rep
+    bytes_tab = prog.const_cfg.get(ir.BYTES_CONST, {})
+    bad = []
+    for cfg in ctx.cfgs():
+        rs = T.residuals(k, cfg)
+        want = ("Ge", ("arg", 2), ("c", bytes_tab.get(cfg)), True)
+        if cfg == (0, 0):
+            # BYTES == 0: every index must panic
+            if not rs:
+                bad.append((cfg, "no panic site at all"))
+            continue
+        if len(rs) != 1 or want not in rs[0].guards:
+            bad.append((cfg, [r.guards for r in rs]))
+    b = prog.bodies[k]
+    where = "%s:%s" % (b["file"], b["line"])
+    if bad:
+        rep.violation("byte|panics-iff-index>=BYTES", where, "Uint::byte does not panic exactly when index >= BYTES: in "
+                      "configuration %s its panic condition is %s (an index in BYTES..8*LIMBS would read a padding byte as 0 "
+                      "instead of panicking)" % (bad[0][0], bad[0][1]))
+    else:
+        rep.ok("byte|panics-iff-index>=BYTES", where, "bounds check against a slice of length BYTES in %d configurations" % len(ctx.cfgs()))
+    rep.analysed = {"build_config": config}
+    return rep
